@@ -26,7 +26,7 @@ SPEC = {
         "design_ref": "DESIGN.md section 6 C16"},
     "streams": ["paths"],
     "witnesses": ["F3"],
-    "rule": ("deterministic matrix (10 fixed schemas, one with sub-schemas created explicitly with env=False/True/str/default and registered by attribute and by item at every depth, one whose field and sub-schema keys are public members of Schema and of Config (names taken from dir() at generation time; random schemas get them with probability 0.3 and a random env setting with probability 0.5), two of them with keys whose option string has adjacent / trailing dashes: a_, b__c, class_.enabled, dry__run, x {empty command line, two generated command lines, hand-made namespace} "
+    "rule": ("deterministic matrix (11 fixed schemas, one built bottom-up with sub-schemas populated and READ (reference paths, get_all_fields, generated parser) before being attached, attached to a throw-away parent or under an earlier sibling key first (last attachment wins; random sub-schemas: read-before-attach with probability 0.25, re-attachment 0.25), one with sub-schemas created explicitly with env=False/True/str/default and registered by attribute and by item at every depth, one whose field and sub-schema keys are public members of Schema and of Config (names taken from dir() at generation time; random schemas get them with probability 0.3 and a random env setting with probability 0.5), two of them with keys whose option string has adjacent / trailing dashes: a_, b__c, class_.enabled, dry__run, x {empty command line, two generated command lines, hand-made namespace} "
              "+ 3 sub-schemas handed in directly) then seeded random schemas of depth <= 4 (identifier keys incl. trailing/double underscores, collision-free "
              "after the '.'/'_' -> '-' mapping; str/int/float/bool/any/list/dict/bytes/virtual/method leaves, nested "
              "schemas, config types; 10% keyed roots and 10% sub-schemas handed in directly for F40), each with missing / "
@@ -47,6 +47,9 @@ SPEC = {
                     "config[path], membership, dotted assignment and the parser are checked for such keys too; an "
                     "InstanceMethodField is never given the name of a Config property (full_path: building the configuration "
                     "raises AttributeError)",
+                    "one schema object registered under two keys / two parents AT THE SAME TIME is aliasing and outside the "
+                    "model (measured on the unchanged code: get_all_fields then reports the last key under both entries); "
+                    "re-attachment where the earlier attachment is discarded or overwritten is inside and generated",
                     "schemas are finite trees built through Schema attribute assignment (unique keys; a nested schema's own "
                     "key is the key it is registered under: hypothesis wf); non-dynamic schemas",
                     "option strings / paths do not collide after the '.'/'_' -> '-' mapping (hypothesis of C16_parser_options; "
